@@ -56,7 +56,8 @@ func readGauges() map[string]float64 {
 }
 
 var c20Kinds = []string{"complete-1", "complete-multi", "abandon-eof", "abandon-silence", "even-first", "seq-violation", "key-mismatch", "refused", "oversize", "truncated", "idle", "open-at-shutdown", "two-sessions-one-abandoned",
-	"many-open-sessions", "reply-write-fails", "reply-write-fails-then-more", "top-of-number-space-then-restart", "walk-to-255", "session-id-reused", "open-session-then-key-mismatch", "hangup-at-once"}
+	"many-open-sessions", "reply-write-fails", "reply-write-fails-then-more", "top-of-number-space-then-restart", "walk-to-255", "session-id-reused", "open-session-then-key-mismatch", "hangup-at-once",
+	"restart-reply-then-first-number-again", "no-reply-then-first-number-again", "reply-write-fails-then-first-number-again"}
 
 func runC20(b *mon.B) {
 	r := gen.New(uint64(b.Seed), 0xC20, uint64(b.Index))
@@ -118,7 +119,7 @@ func runC20(b *mon.B) {
 		world.Watchdog = 20 * time.Second
 		tp := tap.New(world)
 		tp.KeepBodies = false
-		pl := &c17Handler{release: make(chan struct{})}
+		pl := &c17Handler{release: make(chan struct{}), ext: true}
 		close(pl.release)
 		sp := &addrSecrets{m: map[string][]byte{}, h: tp.Wrap("initial", pl)}
 		// every fifth burst runs against a server in proxy mode (each connection starts with a PROXY
@@ -256,6 +257,24 @@ func runC20(b *mon.B) {
 				send(pkt(sid, 1, 'C'))
 				send(pktSpec{H: rfc8907.Header{Major: 0xc, Minor: 0, Type: 1, Seq: 1, Session: sid + 1}, Clear: []byte{1, 1, 1, 1, 200, 200, 200, 200, 0xff, 0xff, 9, 9, 9}}.wire(secret))
 			case "hangup-at-once":
+				c.EOF()
+			case "restart-reply-then-first-number-again":
+				// the handler answers RESTART (number 1 again) and stays registered; the client begins
+				// again with number 1 under the same session id
+				send(pkt(sid, 1, 'R'))
+				send(pkt(sid, 1, rr.PickS("C", "x", "R")[0]))
+				send(pkt(sid, 3, 'x'))
+				c.EOF()
+			case "no-reply-then-first-number-again":
+				send(pkt(sid, 1, 'N'))
+				send(pkt(sid, 1, rr.PickS("C", "x", "N")[0]))
+				send(pkt(sid, 3, 'x'))
+				c.EOF()
+			case "reply-write-fails-then-first-number-again":
+				c.FailNextWrites(fmt.Errorf("write: broken pipe"))
+				send(pkt(sid, 1, 'C'))
+				send(pkt(sid, 1, rr.PickS("C", "x")[0]))
+				send(pkt(sid, 3, 'x'))
 				c.EOF()
 			case "even-first":
 				send(pkt(sid, 2*(1+rr.Intn(100)), 'x'))
